@@ -20,6 +20,7 @@ package c14
 
 import (
 	"fmt"
+	"os"
 	"sort"
 	"strings"
 	"sync"
@@ -598,6 +599,10 @@ type special struct {
 	Kind string
 	Src  string
 	Ref  *Node // meaning if the schema is built
+	// Build: +1 the schema must build, -1 it must be refused with
+	// bad-arguments when built, 0 either is allowed
+	Build  int
+	Detail string
 }
 
 func specials() []special {
@@ -629,6 +634,16 @@ func specials() []special {
 	return out
 }
 
+// specialFamily is the kind without its per-spelling suffix (outcome classes).
+func specialFamily(kind string) string {
+	if i := strings.Index(kind, ":"); i >= 0 && !strings.HasPrefix(kind, "unlisted-base-type") {
+		if j := strings.Index(kind[i+1:], ":"); j >= 0 {
+			return kind[:i+1+j]
+		}
+	}
+	return kind
+}
+
 func evalSpecial(sp special, v *Val) res {
 	if sp.Ref.Type == "error" {
 		// no value of the alphabet is an error value
@@ -642,9 +657,25 @@ func (d *drv) checkSpecial(sp special) {
 	built, outs := runMalformed(sp.Src, d.inputs)
 	r.AddEvals(int64(1 + len(outs)))
 	r.AddTransitions(int64(1 + len(outs)))
-	k := kase{Table: "special", Special: sp.Kind, SchemaSrc: sp.Src, Schema: sp.Ref}
+	k := kase{Table: "special", Special: sp.Kind, SchemaSrc: sp.Src, Schema: sp.Ref, What: sp.Detail, Expect: [...]string{"refused", "", "builds"}[sp.Build+1]}
+	report := func(class, expected, got string) {
+		if !d.bump(class) {
+			return
+		}
+		for i := 0; i < 5; i++ {
+			if b2, _ := runMalformed(sp.Src, nil); okey(b2) != okey(built) && (b2.IsErr || built.IsErr) {
+				r.Flaky(map[string]any{"case": k})
+				return
+			}
+		}
+		r.Violate("c14", class, k, expected, got, "")
+	}
 	if built.IsErr {
-		r.Outcome("special/" + sp.Kind + "/build=" + okey(built))
+		r.Outcome("special/" + specialFamily(sp.Kind) + "/build=" + okey(built))
+		if sp.Build > 0 {
+			report("special:"+sp.Kind+":refused:"+built.Cond, "this spelling of a type is accepted: the schema builds", built.Full())
+			return
+		}
 		if built.Cond != condBadArgs {
 			if d.bump("special:" + sp.Kind + ":build:" + built.Cond) {
 				r.Violate("c14", "special:"+sp.Kind+":build:"+built.Cond, k, "built, or rejected with bad-arguments", built.Full(), "")
@@ -652,7 +683,10 @@ func (d *drv) checkSpecial(sp special) {
 		}
 		return
 	}
-	r.Outcome("special/" + sp.Kind + "/build=constructed")
+	r.Outcome("special/" + specialFamily(sp.Kind) + "/build=constructed")
+	if sp.Build < 0 {
+		report("special:"+sp.Kind+":builds", "refused with bad-arguments when built", "built: "+built.Full())
+	}
 	for j, o := range outs {
 		in := &d.inputs[j]
 		ref := evalSpecial(sp, in.V)
@@ -664,12 +698,16 @@ func (d *drv) checkSpecial(sp special) {
 			continue
 		}
 		class := "special:" + sp.Kind + ":" + dir
-		if sp.Kind == "type-slot-validator" {
+		if sp.Kind == "type-slot-validator" || strings.Contains(sp.Kind, ":") && !strings.HasPrefix(sp.Kind, "unlisted-base-type") {
 			// localise: if a part of the schema already disagrees on its own
 			// (another defect seen through this table) that part is blamed;
 			// only a disagreement of the combination itself belongs to this table
 			bc, where := d.blame(sp.Ref, subject{in.Src, in.V}, dir, 0)
-			if !strings.HasPrefix(where, sp.Ref.Src()+" on ") {
+			if strings.HasPrefix(sp.Kind, "key-constraint-as-member-type") {
+				// the member loop itself is what disagrees; keep the table's name
+				// in the class so that it cannot mask another s:of / s:has-key defect
+				class = "key-as-member-type:" + bc
+			} else if !strings.HasPrefix(where, sp.Ref.Src()+" on ") {
 				class = bc
 			} else if len(sp.Ref.Kids) > 1 && dir == "accepts" {
 				// the extra constraint is the only thing that can reject here
@@ -761,6 +799,16 @@ func run(r *core.Run) {
 		}
 	}
 	sps := specials()
+	sps = append(sps, namingSpecials()...)
+	keyAsType := os.Getenv("C14_KEY_AS_TYPE") != ""
+	if keyAsType {
+		sps = append(sps, keyAsTypeSpecials()...)
+	} else {
+		r.Assume("NOT asserted (set C14_KEY_AS_TYPE=1 to assert): a key constraint used as a member type, (s:of (s:has-key \"a\")) / (s:has-key \"m\" (s:has-key \"x\")), which on this tree builds but can never match")
+	}
+	r.Bound("type_spellings", len(typeNamings()))
+	r.Bound("naming_schemas", len(namingSpecials()))
+	r.Assume("which spellings of a type are accepted where was probed on the unchanged tree and is modelled exactly: type symbol, type-name string, validator value, quoted symbol naming a validator (deftype'd or set) and inline validators are accepted in every type position; a quoted symbol naming a builtin type ('s:int) is refused everywhere; s:not takes validator values only")
 
 	r.Bound("inputs", len(inputs))
 	r.Bound("type_names", len(typeNames))
@@ -894,9 +942,9 @@ func replay(v core.Violation) (bool, string) {
 		built, outs := runMalformed(k.SchemaSrc, ins)
 		rep := fmt.Sprintf("build %s\n => %s", k.SchemaSrc, built.Full())
 		if built.IsErr {
-			return built.Cond != condBadArgs, rep
+			return built.Cond != condBadArgs || k.Expect == "builds", rep
 		}
-		bad := false
+		bad := k.Expect == "refused"
 		for i, o := range outs {
 			ref := evalSpecial(sp, ins[i].V)
 			rep += fmt.Sprintf("\n validate %s => %s (reference: %s)", ins[i].Src, o.Full(), ref)
